@@ -299,6 +299,11 @@ def check_fold(ctx, F, rule, name, fold, adt=MT):
         # the same fold written as an explicit loop (possibly in a private helper taking the getter and the selection as
         # closures): recognised row by row
         n = _fold_loop_form(ctx, F, rule, name, fold, body, vec, tf)
+    if n == 0:
+        # ... with a plain running value (seeded with the first component or with the order's least / greatest element), a
+        # direct comparison, or `Iterator::fold` with a closure: each step is judged by what it selects under each of the
+        # three possible orderings of (running value, candidate)
+        n = _fold_select_form(ctx, F, rule, name, fold, body, vec, tf)
     ctx.floor(rule, inst + " fold paths", n, 1)
 
 
@@ -406,6 +411,221 @@ def _fold_loop_form(ctx, F, rule, name, fold, body, vec, tf):
                % (name, want, show(new)[:160]), body["span"], trace_of(p), what="fold-kind-wrong")
         n += 1
     return n
+
+
+def _strip_ref(d):
+    return d[1] if d[0] in ("&", "&mut") else d
+
+
+def _step_selects(p_conds, events, cur, cand, new, fold):
+    """A fold step that went from `cur` to `new` after seeing `cand`: for each ordering of (cur, cand) under which the step's
+    decisions can all hold, the value kept must be the smaller one (min_by) / the greater one (max_by, max); equal values may
+    keep either.  -> (ok, detail).  A decision about cur or cand that is not a comparison of the two is not understood and
+    fails the step (fail closed)."""
+    cmps = {}
+    for e in events:
+        if e["kind"] == "call" and e["fn"].get("name") in ("partial_cmp", "total_cmp", "cmp") and len(e["descs"]) == 2:
+            a, b_ = _strip_ref(e["descs"][0]), _strip_ref(e["descs"][1])
+            if (a, b_) == (cur, cand):
+                cmps[e["result"]] = (False, e["fn"]["name"])
+            elif (a, b_) == (cand, cur):
+                cmps[e["result"]] = (True, e["fn"]["name"])
+    ORD = {"lt": "Less", "eq": "Equal", "gt": "Greater"}
+    SWAP = {"lt": "gt", "eq": "eq", "gt": "lt"}
+
+    def truth(t, v, o):
+        """does decision (t == v) hold when cur <o> cand?  True / False / None (not about the pair) / 'unknown'"""
+        if t[0] == "bin" and t[1] in ("Lt", "Le", "Gt", "Ge", "Eq", "Ne") and {t[2], t[3]} == {cur, cand}:
+            oo = o if (t[2], t[3]) == (cur, cand) else SWAP[o]
+            val = {"Lt": oo == "lt", "Le": oo in ("lt", "eq"), "Gt": oo == "gt", "Ge": oo in ("gt", "eq"),
+                   "Eq": oo == "eq", "Ne": oo != "eq"}[t[1]]
+            return val == bool(v)
+        for c, (swapped, kind) in cmps.items():
+            ordering = ORD[SWAP[o] if swapped else o]
+            payload = ("field", ("variant", c, "Some"), "0") if kind == "partial_cmp" else c
+            if kind == "partial_cmp" and t == ("discr", c, pse.OPT_VARIANTS) or (kind == "partial_cmp" and t[0] == "discr" and t[1] == c):
+                return v == 1           # comparable values: partial_cmp is Some
+            if t[0] == "discr" and t[1] == payload:
+                if isinstance(v, tuple) and v[0] == "not":
+                    return ordering not in {ORDERING.get(x if x >= 0 else 255) for x in v[1]}
+                return ORDERING.get(v) == ordering
+            if t[0] == "bin" and t[1] in ("Eq", "Ne") and payload in (t[2], t[3]) and v in (0, 1):
+                other = t[3] if t[2] == payload else t[2]
+                uv = pse.unit_variant(other)
+                if uv is None:
+                    return "unknown"
+                return ((uv[1] == ordering) == (t[1] == "Eq")) == bool(v)
+        if pse.contains(t, cur) or pse.contains(t, cand):
+            # the Some / None decisions of the iterator and of an optional running value are handled by the caller
+            if t[0] == "discr" and (t[1] == cur or pse.contains(cand, t[1]) or pse.contains(cur, t[1])):
+                return None
+            return "unknown"
+        return None
+
+    covered = set()
+    for o in ("lt", "eq", "gt"):
+        feas = True
+        for (t, v, s_) in p_conds:
+            tv = truth(t, v, o)
+            if tv == "unknown":
+                return False, "a decision of the step is not a comparison of the running value and the candidate: %s" % show(t)[:160]
+            if tv is False:
+                feas = False
+                break
+        if not feas:
+            continue
+        covered.add(o)
+        keep_cur = (o == "lt") if fold == "min_by" else (o == "gt")
+        if o != "eq" and new != (cur if keep_cur else cand):
+            return False, "with running value %s candidate the step keeps %s" % (
+                {"lt": "<", "gt": ">"}[o], "the running value" if new == cur else "the candidate" if new == cand else show(new)[:80])
+        if o == "eq" and new not in (cur, cand):
+            return False, "the step keeps neither the running value nor the candidate: %s" % show(new)[:80]
+    if not covered:
+        return False, "the step's decisions hold under no ordering of the two values"
+    return True, ",".join(sorted(covered))
+
+
+def _identity_seed(t, name, fold):
+    """the seed is the least element of the order for a maximum (the greatest for a minimum): it never survives a component"""
+    if fold in ("max", "max_by"):
+        uv = pse.unit_variant(t)
+        if name == "repeat" and uv is not None and uv[1] == "None":
+            return True         # Repeat::None is the least Repeat (ordinal 0; the order itself is C12/R3 `Repeat::cmp`)
+        return intervals_fval(t) == float("-inf")
+    return intervals_fval(t) == float("inf")
+
+
+def intervals_fval(t):
+    return t[2][2] if pse.is_const(t) and isinstance(t[2], tuple) and t[2][0] == "f" else None
+
+
+def _fold_select_form(ctx, F, rule, name, fold, body, vec, tf):
+    inst = body["path"]
+    crate = F.body_unit[body["id"]][0]
+    inl = lambda fn, bb: F.body_unit[bb["id"]][0] == crate and bb.get("impl_trait") not in (TL, "core::cmp::Ord", "core::cmp::PartialOrd")
+    eng = pse.Engine(F, inline=inl, inline_loops=True)
+    try:
+        paths = eng.run(body)
+    except pse.Budget:
+        return 0
+    ctx.count_paths(paths, body)
+    rets = [p for p in paths if p.outcome == "return"]
+    n = 0
+    # (1) an explicit loop over the components with a plain running value
+    accs = {p.ret for p in rets if p.ret[0] == "loop"}
+    if len(accs) == 1:
+        ACC = next(iter(accs))
+        hdr, l = ACC[1], ACC[2][1]
+        init = ACC[3]
+        first = [e for p in rets for e in p.events if e["kind"] == "call" and is_trait_call(e, TL, name) and e["result"] == init]
+        if first:
+            # seeded with the first component: taken with next() from an ordered traversal of all components, the rest follow
+            e0 = first[0]
+            recv = e0["descs"][0]
+            ok_seed = recv[0] == "&" and recv[1][0] == "deref" and recv[1][1][0] == "field" and recv[1][1][1][0] == "variant" \
+                and recv[1][1][1][1][0] == "call" and recv[1][1][1][1][1].endswith("Iterator::next") and \
+                ordered_source(_strip_ref(recv[1][1][1][1][2][0]), vec)
+            ctx.ob(rule, inst + "/fold-seed", ok_seed, "the running value must start as the first component's %s(); it starts as %s"
+                   % (name, show(init)[:160]), body["span"], what="fold-init-wrong")
+        else:
+            ctx.ob(rule, inst + "/fold-seed", _identity_seed(init, name, fold),
+                   "the running value must start as the first component's value or as the order's %s element; it starts as %s"
+                   % ("least" if fold != "min_by" else "greatest", show(init)[:160]), body["span"], what="fold-init-wrong")
+        for p in paths:
+            nx = [e for e in p.events if e["kind"] == "call" and e["fn"].get("name") == "next" and e["descs"]
+                  and e["descs"][0][0] == "&mut" and e["descs"][0][1][0] == "loop" and e["descs"][0][1][1] == hdr]
+            if p.outcome != "backedge" or not nx:
+                continue
+            if [v for (t, v, s_) in p.conds if t[0] == "discr" and t[1] == nx[0]["result"]] != [1]:
+                continue
+            lab = inst + "/fold-row[%s]" % ",".join(str(v) for (_, v, _) in p.conds[1:])
+            item = ("field", ("variant", nx[0]["result"], "Some"), "0")
+            src = nx[0]["descs"][0][1][3]
+            ctx.ob(rule, lab + "/ordered-traversal", ordered_source(src, vec) or src == ACC[3] or _rest_of(src, vec),
+                   "the fold must visit every component of self.%s in order; iterator is %s" % (tf, show(src)[:200]), body["span"],
+                   trace_of(p), what="fold-not-over-all-components")
+            got = [e for e in p.events if e["kind"] == "call" and is_trait_call(e, TL, name) and pse.contains(e["descs"][0], item)]
+            ok_get = len(got) == 1 and got[0]["descs"][0] == ("&", ("deref", item))
+            ctx.ob(rule, lab + "/reads-this-component", ok_get,
+                   "each step must read %s() of the component being visited, once" % name, body["span"], trace_of(p),
+                   what="mapper-wrong-getter")
+            if not ok_get:
+                continue
+            cand = got[0]["result"]
+            fin = [v for (k, v) in p.store.items() if k[0] == "L" and k[1] == 0 and k[2] == l]
+            if len(fin) != 1:
+                ctx.ob(rule, lab + "/step-shape", False, "the running value of this step is not recognisable", body["span"],
+                       trace_of(p), what="fold-step-unknown")
+                continue
+            ok, why = _step_selects(p.conds, p.events, ACC, cand, fin[0], fold)
+            ctx.ob(rule, lab + "/selects", ok, "merged %s must keep the %s of the running value and the candidate: %s"
+                   % (name, "smaller" if fold == "min_by" else "greater", why), body["span"], trace_of(p), what="fold-kind-wrong")
+            n += 1
+        return n
+    # (2) Iterator::fold(init, |acc, component| ..) over the components
+    for p in rets:
+        fs = [x for x in subterms(p.ret) if x[0] == "call" and x[1].split("::")[-1] == "fold" and "Iterator" in x[1] and len(x[2]) == 3]
+        if not fs:
+            continue
+        f = fs[0]
+        src, init, clo = f[2]
+        ctx.ob(rule, inst + "/all-components", ordered_source(src, vec),
+               "the fold must range over all components of self.%s in order; ranges over %s" % (tf, show(src)[:200]),
+               body["span"], trace_of(p), what="fold-not-over-all-components")
+        cb = eng.closure_body(clo)
+        if cb is None:
+            ctx.ob(rule, inst + "/step-shape", False, "the fold's step is not a closure literal", body["span"], what="fold-step-unknown")
+            return 1
+        optional = init[0] == "agg" and init[3] == "None"
+        ctx.ob(rule, inst + "/fold-seed", optional or _identity_seed(init, name, fold),
+               "the fold must start empty (None) or from the order's %s element; it starts as %s"
+               % ("least" if fold != "min_by" else "greatest", show(init)[:120]), body["span"], what="fold-init-wrong")
+        sp = [q for q in pse.Engine(F, inline=inl).run(cb) if q.outcome == "return"]
+        ctx.count_paths(sp, cb)
+        accp, itemp = ("param", 2), ("param", 3)
+        cur = ("field", ("variant", accp, "Some"), "0") if optional else accp
+        for q in sp:
+            lab = inst + "/fold-step[%s]" % ",".join(str(v) for (_, v, _) in q.conds)
+            got = [e for e in q.events if e["kind"] == "call" and is_trait_call(e, TL, name)]
+            ok_get = len(got) == 1 and got[0]["descs"][0] in (("&", ("deref", itemp)), itemp)
+            ctx.ob(rule, lab + "/reads-this-component", ok_get, "each step must read %s() of the component being visited, once"
+                   % name, cb["span"], trace_of(q), what="mapper-wrong-getter")
+            if not ok_get:
+                continue
+            cand = got[0]["result"]
+            new = q.ret
+            if optional:
+                if not (new[0] == "agg" and new[3] == "Some"):
+                    ctx.ob(rule, lab + "/step-shape", False, "a step must yield Some(value); yields %s" % show(new)[:100], cb["span"],
+                           trace_of(q), what="fold-step-unknown")
+                    continue
+                new = new[4][0][1]
+                had = next((v for (t, v, s_) in q.conds if t[0] == "discr" and t[1] == accp), None)
+                if had == 0:
+                    ctx.ob(rule, lab + "/selects", new == cand, "the first component's value must be taken as it is; the step keeps %s"
+                           % show(new)[:100], cb["span"], trace_of(q), what="fold-kind-wrong")
+                    n += 1
+                    continue
+            ok, why = _step_selects(q.conds, q.events, cur, cand, new, fold)
+            ctx.ob(rule, lab + "/selects", ok, "merged %s must keep the %s of the running value and the candidate: %s"
+                   % (name, "smaller" if fold == "min_by" else "greater", why), cb["span"], trace_of(q), what="fold-kind-wrong")
+            n += 1
+        # the result is the folded value itself (or the empty-list default)
+        r = p.ret
+        okr = r == f or r == ("field", ("variant", f, "Some"), "0")
+        ctx.ob(rule, inst + "/result-is-fold", okr, "the result must be the folded value itself; it is %s" % show(r)[:120],
+               body["span"], trace_of(p), what="result-not-fold")
+        break
+    return n
+
+
+def _rest_of(src, vec):
+    """the iterator the loop runs on is an ordered traversal of the components from which the first element was taken"""
+    t = src
+    while t[0] == "after":
+        t = t[-1] if isinstance(t[-1], tuple) else t[1]
+    return ordered_source(t, vec)
 
 
 def check_cycle(ctx, F, rule, adt=MT):
